@@ -512,8 +512,9 @@ def run(tier, seed):
                     lo = None
                     for f in Fl.at_inst(c):
                         if f[0] in ("uge", "ugt") and symf(Ml.strip(f[1])) == hs or (f[0] in ("uge", "ugt") and linform(lf, f[1], symf) == Lin(0, {hs: 1})):
-                            vals = [const_val(x) for x, _ in Fl.sources(f[2]) if is_const(x)]
-                            if vals and len(vals) == len(Fl.sources(f[2])):
+                            srcs_ = [(x, fs_) for x, fs_ in Fl.sources(f[2]) if x[0] != "undef"]      # an out-parameter left unset on a path that fails anyway
+                            vals = [const_val(x) for x, _ in srcs_ if is_const(x)]
+                            if vals and len(vals) == len(srcs_):
                                 b0 = min(vals) + (1 if f[0] == "ugt" else 0)
                                 lo = b0 if lo is None else max(lo, b0)
                     if lo is not None:
